@@ -1,14 +1,52 @@
 use vstd::prelude::*;
+use vstd::std_specs::cmp::*;
+use core::cmp::Ordering;
 verus! {
-pub struct UF { pub parent: Vec<usize>, pub rank: Vec<u8> }
-impl UF {
+global size_of usize == 8;
+
+pub unsafe trait IndexType: Copy + PartialEq {
+    spec fn ix(&self) -> usize;
+    spec fn spec_max() -> usize;
+    proof fn eq_law()
+        ensures Self::obeys_eq_spec(),
+                forall|a: Self, b: Self| #[trigger] a.eq_spec(&b) <==> a.ix() == b.ix();
+    fn new(x: usize) -> (r: Self)
+        ensures x <= Self::spec_max() ==> r.ix() == x;
+    fn index(&self) -> (r: usize)
+        ensures r == self.ix(), r <= Self::spec_max();
+    fn max() -> (r: Self)
+        ensures r.ix() == Self::spec_max();
+}
+
+pub struct UnionFind<K> {
+    pub parent: Vec<K>,
+    pub rank: Vec<u8>,
+}
+
+#[inline]
+#[verifier::external_body]
+unsafe fn get_unchecked<K>(xs: &[K], index: usize) -> (r: &K)
+    requires index < xs@.len()
+    ensures *r == xs@[index as int]
+{ xs.get_unchecked(index) }
+
+#[inline]
+#[verifier::external_body]
+unsafe fn get_unchecked_mut<K>(xs: &mut [K], index: usize) -> (r: &mut K)
+    requires index < old(xs)@.len()
+    ensures *r == old(xs)@[index as int], final(xs)@ == old(xs)@.update(index as int, *final(r))
+{ xs.get_unchecked_mut(index) }
+
+impl<K: IndexType> UnionFind<K> {
+    // ---------- abstraction: acyclicity through a ghost depth function, nothing about `rank` ----------
+    pub open spec fn p(&self, i: int) -> int { self.parent@[i].ix() as int }
     pub open spec fn valid_depth(&self, d: Seq<nat>) -> bool {
         &&& d.len() == self.parent.len()
-        &&& forall|i: int| 0 <= i < self.parent.len() && self.parent@[i] != i ==> d[#[trigger] self.parent@[i] as int] < d[i]
+        &&& forall|i: int| 0 <= i < self.parent.len() && self.p(i) != i ==> d[#[trigger] self.p(i)] < d[i]
     }
     pub open spec fn wf(&self) -> bool {
         &&& self.parent.len() == self.rank.len()
-        &&& forall|i: int| 0 <= i < self.parent.len() ==> (#[trigger] self.parent@[i]) < self.parent.len()
+        &&& forall|i: int| 0 <= i < self.parent.len() ==> 0 <= #[trigger] self.p(i) < self.parent.len()
         &&& exists|d: Seq<nat>| self.valid_depth(d)
     }
     pub open spec fn depth(&self) -> Seq<nat> { choose|d: Seq<nat>| self.valid_depth(d) }
@@ -16,25 +54,291 @@ impl UF {
         decreases self.depth()[i]
         when self.wf() && 0 <= i < self.parent.len()
     {
-        if self.parent@[i] == i { i } else { self.root(self.parent@[i] as int) }
+        if self.p(i) == i { i } else { self.root(self.p(i)) }
     }
-    pub fn try_find(&self, mut x: usize) -> (r: Option<usize>)
-        requires self.wf()
-        ensures r is None <==> x >= self.parent.len(), r is Some ==> r.unwrap() == self.root(x as int),
+    pub open spec fn same_roots(&self, o: &Self) -> bool {
+        &&& self.parent.len() == o.parent.len()
+        &&& forall|i: int| 0 <= i < self.parent.len() ==> #[trigger] self.root(i) == o.root(i)
+    }
+
+    pub proof fn lemma_root_props(&self, i: int)
+        requires self.wf(), 0 <= i < self.parent.len()
+        ensures 0 <= self.root(i) < self.parent.len(), self.p(self.root(i)) == self.root(i),
+                self.root(self.root(i)) == self.root(i),
+                self.depth()[self.root(i)] <= self.depth()[i],
+        decreases self.depth()[i]
     {
-        if x >= self.parent.len() { return None; }
-        let ghost x0 = x;
-        loop
-            invariant self.wf(), x < self.parent.len(), self.root(x as int) == self.root(x0 as int),
-            ensures self.parent@[x as int] == x, self.root(x as int) == self.root(x0 as int), x < self.parent.len(),
-            decreases self.depth()[x as int]
-        {
-            let xparent = self.parent[x];
-            if xparent == x { break; }
-            x = xparent;
+        if self.p(i) != i { self.lemma_root_props(self.p(i)); }
+    }
+
+    // redirect x to gp (same root, strictly smaller depth): all roots preserved; old depth is still a witness
+    pub proof fn lemma_redirect(old_s: &Self, new_s: &Self, x: int, gp: int)
+        requires
+            old_s.wf(), 0 <= x < old_s.parent.len(), 0 <= gp < old_s.parent.len(),
+            old_s.root(gp) == old_s.root(x), gp != x,
+            exists|d: Seq<nat>| old_s.valid_depth(d) && d[gp] < d[x],
+            new_s.rank@.len() == old_s.rank@.len(), new_s.parent@.len() == old_s.parent@.len(),
+            forall|j: int| 0 <= j < old_s.parent.len() && j != x ==> new_s.parent@[j] == old_s.parent@[j],
+            new_s.p(x) == gp,
+        ensures new_s.wf(), new_s.same_roots(old_s),
+    {
+        let d = choose|d: Seq<nat>| old_s.valid_depth(d) && d[gp] < d[x];
+        Self::lemma_redirect_depth(old_s, new_s, x, gp, d);
+        assert forall|i: int| 0 <= i < new_s.parent.len() implies 0 <= #[trigger] new_s.p(i) < new_s.parent.len() by {
+            if i != x { assert(new_s.p(i) == old_s.p(i)); }
         }
-        Some(x)
+        assert(new_s.wf());
+        assert forall|i: int| 0 <= i < new_s.parent.len() implies #[trigger] new_s.root(i) == old_s.root(i) by {
+            Self::lemma_redirect_i(old_s, new_s, x, gp, i);
+        }
+    }
+    // any witness d with d[gp] < d[x] survives the redirect
+    pub proof fn lemma_redirect_depth(old_s: &Self, new_s: &Self, x: int, gp: int, d: Seq<nat>)
+        requires
+            old_s.valid_depth(d), 0 <= x < old_s.parent.len(), 0 <= gp < old_s.parent.len(), d[gp] < d[x],
+            new_s.parent@.len() == old_s.parent@.len(),
+            forall|j: int| 0 <= j < old_s.parent.len() && j != x ==> new_s.parent@[j] == old_s.parent@[j],
+            new_s.p(x) == gp,
+        ensures new_s.valid_depth(d)
+    {
+        assert forall|i: int| 0 <= i < new_s.parent.len() && new_s.p(i) != i implies d[#[trigger] new_s.p(i)] < d[i] by {
+            if i != x { assert(new_s.p(i) == old_s.p(i)); }
+        }
+    }
+    pub proof fn lemma_redirect_i(old_s: &Self, new_s: &Self, x: int, gp: int, i: int)
+        requires
+            old_s.wf(), new_s.wf(), 0 <= x < old_s.parent.len(), 0 <= gp < old_s.parent.len(),
+            old_s.root(gp) == old_s.root(x), gp != x,
+            new_s.parent@.len() == old_s.parent@.len(),
+            forall|j: int| 0 <= j < old_s.parent.len() && j != x ==> new_s.parent@[j] == old_s.parent@[j],
+            new_s.p(x) == gp,
+            0 <= i < old_s.parent.len(),
+        ensures new_s.root(i) == old_s.root(i)
+        decreases old_s.depth()[i]
+    {
+        if i == x {
+            // new root(x) == new root(gp); gp's old path to its root cannot pass through x?  it may — handle via measure on new_s
+            Self::lemma_redirect_x(old_s, new_s, x, gp);
+            assert(new_s.depth()[gp] < new_s.depth()[x]);
+        } else if old_s.p(i) != i {
+            assert(new_s.p(i) == old_s.p(i));
+            Self::lemma_redirect_i(old_s, new_s, x, gp, old_s.p(i));
+        } else {
+            assert(new_s.p(i) == i);
+        }
+    }
+
+    // the case i == x, by induction along gp's path in the NEW structure (whose depth witness exists by new_s.wf())
+    pub proof fn lemma_redirect_x(old_s: &Self, new_s: &Self, x: int, gp: int)
+        requires
+            old_s.wf(), new_s.wf(), 0 <= x < old_s.parent.len(), 0 <= gp < old_s.parent.len(),
+            old_s.root(gp) == old_s.root(x), gp != x,
+            new_s.parent@.len() == old_s.parent@.len(),
+            forall|j: int| 0 <= j < old_s.parent.len() && j != x ==> new_s.parent@[j] == old_s.parent@[j],
+            new_s.p(x) == gp,
+        ensures new_s.root(x) == old_s.root(x)
+    {
+        assert(new_s.depth()[gp] < new_s.depth()[x]);
+        Self::lemma_path_avoiding(old_s, new_s, x, gp, gp);
+    }
+    // for every j on the NEW path from gp: new root(j) == old root(j) (new path from gp never returns to x, by new acyclicity)
+    pub proof fn lemma_path_avoiding(old_s: &Self, new_s: &Self, x: int, gp: int, j: int)
+        requires
+            old_s.wf(), new_s.wf(), 0 <= x < old_s.parent.len(), 0 <= gp < old_s.parent.len(), 0 <= j < old_s.parent.len(),
+            gp != x, new_s.parent@.len() == old_s.parent@.len(),
+            forall|t: int| 0 <= t < old_s.parent.len() && t != x ==> new_s.parent@[t] == old_s.parent@[t],
+            new_s.p(x) == gp,
+            new_s.depth()[j] < new_s.depth()[x],
+        ensures new_s.root(j) == old_s.root(j)
+        decreases new_s.depth()[j]
+    {
+        // j != x since depths differ
+        if new_s.p(j) != j {
+            assert(new_s.p(j) == old_s.p(j));
+            Self::lemma_path_avoiding(old_s, new_s, x, gp, new_s.p(j));
+        } else {
+            assert(old_s.p(j) == j);
+        }
+    }
+
+    pub fn len(&self) -> (r: usize) ensures r == self.parent.len() { self.parent.len() }
+
+    unsafe fn find_mut_recursive(&mut self, mut x: K) -> (r: K)
+        requires old(self).wf(), x.ix() < old(self).parent.len()
+        ensures final(self).wf(), final(self).same_roots(old(self)), final(self).rank@ == old(self).rank@,
+                r.ix() == old(self).root(x.ix() as int),
+    {
+        let ghost x0 = x;
+        let ghost s0 = *self;
+        let ghost d0 = self.depth();
+        let mut parent = *get_unchecked(&self.parent, x.index());
+        while parent != x
+            invariant
+                self.wf(), self.same_roots(&s0), self.rank@ == s0.rank@,
+                x.ix() < self.parent.len(), parent == self.parent@[x.ix() as int],
+                self.root(x.ix() as int) == s0.root(x0.ix() as int),
+                self.valid_depth(d0),
+            decreases d0[x.ix() as int]
+        {
+            proof { K::eq_law(); }
+            let grandparent = *get_unchecked(&self.parent, parent.index());
+            let ghost before = *self;
+            *get_unchecked_mut(&mut self.parent, x.index()) = grandparent;
+            proof {
+                let xi = x.ix() as int; let pi = parent.ix() as int; let gi = grandparent.ix() as int;
+                assert(before.p(xi) == pi);
+                assert(before.root(xi) == before.root(pi));
+                assert(before.p(pi) == gi);
+                assert(before.root(pi) == before.root(gi));
+                assert(d0[pi] < d0[xi]);
+                assert(d0[gi] <= d0[pi]);
+                assert(before.valid_depth(d0) && d0[gi] < d0[xi]);
+                Self::lemma_redirect(&before, self, xi, gi);
+                Self::lemma_redirect_depth(&before, self, xi, gi, d0);
+            }
+            x = parent;
+            parent = grandparent;
+        }
+        proof { K::eq_law(); }
+        x
     }
 }
+impl<K: IndexType> UnionFind<K> {
+    pub fn try_find_mut(&mut self, x: K) -> (r: Option<K>)
+        requires old(self).wf()
+        ensures final(self).wf(), final(self).same_roots(old(self)), final(self).rank@ == old(self).rank@,
+            r is None <==> x.ix() >= old(self).parent.len(),
+            r is Some ==> r.unwrap().ix() == old(self).root(x.ix() as int),
+    {
+        if x.index() >= self.len() {
+            return None;
+        }
+        Some(unsafe { self.find_mut_recursive(x) })
+    }
+
+    pub open spec fn merged(&self, o: &Self, rx: int, ry: int, w: int) -> bool {
+        forall|i: int| 0 <= i < o.parent.len() ==>
+            #[trigger] self.root(i) == (if o.root(i) == rx || o.root(i) == ry { w } else { o.root(i) })
+    }
+
+    // link root c under root w: new witness shifts c's whole tree below w
+    pub proof fn lemma_link_wf(old_s: &Self, new_s: &Self, c: int, w: int)
+        requires
+            old_s.wf(), 0 <= c < old_s.parent.len(), 0 <= w < old_s.parent.len(), c != w,
+            old_s.p(c) == c, old_s.p(w) == w,
+            new_s.parent@.len() == old_s.parent@.len(), new_s.rank@.len() == old_s.rank@.len(),
+            forall|j: int| 0 <= j < old_s.parent.len() && j != c ==> new_s.parent@[j] == old_s.parent@[j],
+            new_s.p(c) == w,
+        ensures new_s.wf()
+    {
+        let d = old_s.depth();
+        let d2 = Seq::new(d.len(), |j: int| if old_s.root(j) == c { (d[j] + d[w] + 1) as nat } else { d[j] });
+        assert forall|i: int| 0 <= i < new_s.parent.len() implies 0 <= #[trigger] new_s.p(i) < new_s.parent.len() by {
+            if i != c { assert(new_s.p(i) == old_s.p(i)); }
+        }
+        assert(new_s.valid_depth(d2)) by {
+            assert forall|i: int| 0 <= i < new_s.parent.len() && new_s.p(i) != i implies d2[#[trigger] new_s.p(i)] < d2[i] by {
+                if i == c {
+                    assert(old_s.root(c) == c);
+                    assert(old_s.root(w) == w);
+                } else {
+                    assert(new_s.p(i) == old_s.p(i));
+                    let pi = old_s.p(i);
+                    assert(old_s.root(i) == old_s.root(pi));
+                    assert(d[pi] < d[i]);
+                }
+            }
+        }
+    }
+
+    pub proof fn lemma_link_roots(old_s: &Self, new_s: &Self, c: int, w: int, i: int)
+        requires
+            old_s.wf(), new_s.wf(), 0 <= c < old_s.parent.len(), 0 <= w < old_s.parent.len(), c != w,
+            old_s.p(c) == c, old_s.p(w) == w,
+            new_s.parent@.len() == old_s.parent@.len(),
+            forall|j: int| 0 <= j < old_s.parent.len() && j != c ==> new_s.parent@[j] == old_s.parent@[j],
+            new_s.p(c) == w,
+            0 <= i < old_s.parent.len(),
+        ensures new_s.root(i) == (if old_s.root(i) == c { w } else { old_s.root(i) })
+        decreases old_s.depth()[i]
+    {
+        if i == c {
+            assert(new_s.p(w) == w);
+            assert(new_s.root(w) == w);
+            assert(new_s.root(c) == new_s.root(w));
+        } else if old_s.p(i) != i {
+            assert(new_s.p(i) == old_s.p(i));
+            Self::lemma_link_roots(old_s, new_s, c, w, old_s.p(i));
+        } else {
+            assert(new_s.p(i) == i);
+        }
+    }
+
+    pub fn try_union(&mut self, x: K, y: K) -> (res: Result<bool, K>)
+        requires old(self).wf()
+        ensures
+            final(self).wf(), final(self).parent.len() == old(self).parent.len(),
+            x.ix() == y.ix() ==> res == Ok::<bool, K>(false) && final(self).same_roots(old(self)),
+            x.ix() != y.ix() && x.ix() >= old(self).parent.len() ==> res is Err && res->Err_0.ix() == x.ix() && final(self).same_roots(old(self)),
+            x.ix() != y.ix() && x.ix() < old(self).parent.len() && y.ix() >= old(self).parent.len() ==> res is Err && res->Err_0.ix() == y.ix() && final(self).same_roots(old(self)),
+            x.ix() != y.ix() && x.ix() < old(self).parent.len() && y.ix() < old(self).parent.len() ==> {
+                let rx = old(self).root(x.ix() as int);
+                let ry = old(self).root(y.ix() as int);
+                &&& res == Ok::<bool, K>(rx != ry)
+                &&& rx == ry ==> final(self).same_roots(old(self))
+                &&& rx != ry ==> (final(self).merged(old(self), rx, ry, rx) || final(self).merged(old(self), rx, ry, ry))
+            },
+    {
+        proof { K::eq_law(); }
+        if x == y {
+            return Ok(false);
+        }
+        let ghost s0 = *self;
+        let xrep = self.try_find_mut(x).ok_or(x)?;
+        let yrep = self.try_find_mut(y).ok_or(y)?;
+        let ghost s2 = *self;
+
+        if xrep == yrep {
+            return Ok(false);
+        }
+
+        let xrepu = xrep.index();
+        let yrepu = yrep.index();
+        proof {
+            s0.lemma_root_props(x.ix() as int);
+            s0.lemma_root_props(y.ix() as int);
+            s2.lemma_root_props(x.ix() as int);
+            s2.lemma_root_props(y.ix() as int);
+        }
+        let xrank = self.rank[xrepu];
+        let yrank = self.rank[yrepu];
+
+        // The rank corresponds roughly to the depth of the treeset, so put the
+        // smaller set below the larger
+        match xrank.cmp(&yrank) {
+            Ordering::Less => self.parent[xrepu] = yrep,
+            Ordering::Greater => self.parent[yrepu] = xrep,
+            Ordering::Equal => {
+                self.parent[yrepu] = xrep;
+                assume(self.rank[xrepu as int] < 255); // ASSUMPTION (listed): rank overflow needs >= 2^255 elements
+                self.rank[xrepu] += 1;
+            }
+        }
+        proof {
+            let rx = xrepu as int; let ry = yrepu as int;
+            // read the direction off the resulting structure, not off the rank policy
+            let (c, w) = if self.p(rx) == ry { (rx, ry) } else { (ry, rx) };
+            Self::lemma_link_wf(&s2, self, c, w);
+            assert forall|i: int| 0 <= i < s0.parent.len() implies
+                #[trigger] self.root(i) == (if s0.root(i) == rx || s0.root(i) == ry { w } else { s0.root(i) }) by {
+                Self::lemma_link_roots(&s2, self, c, w, i);
+                assert(s2.root(i) == s0.root(i));
+            }
+            assert(self.merged(&s0, rx, ry, w));
+        }
+        Ok(true)
+    }
+}
+
 }
 fn main() {}
